@@ -850,7 +850,49 @@ NESTED_INPUTS = ["1+2", "{2}", "1+{2}", "100+{2+}", "1+{2}", "{1+{2}}", "7+{{3}+
                  "9+", "1+{2}", "{", "3+{4}+{5+{6}}", "100+{+}", "{1}+{2}"]
 
 
-def run_c15_nested(rng):
+def nested_expected(w):
+    """what NESTED_Y's parser must answer for input w: sums of numbers, `{…}` = twice the value of the
+    sub-string parsed by a nested parse; anything else is rejected"""
+    def expr(s):
+        # returns value or None
+        i, total, need = 0, 0, True
+        while i < len(s):
+            if need:
+                if s[i].isdigit():
+                    j = i
+                    while j < len(s) and s[j].isdigit():
+                        j += 1
+                    total += int(s[i:j]); i = j
+                elif s[i] == "{":
+                    depth, j = 0, i
+                    while j < len(s):
+                        if s[j] == "{":
+                            depth += 1
+                        if s[j] == "}":
+                            depth -= 1
+                            if depth == 0:
+                                break
+                        j += 1
+                    if j >= len(s):
+                        return None
+                    v = expr(s[i + 1:j])
+                    if v is None:
+                        return None
+                    total += 2 * v; i = j + 1
+                else:
+                    return None
+                need = False
+            else:
+                if s[i] != "+":
+                    return None
+                i += 1
+                need = True
+        return None if need else total
+    v = expr(w)
+    return "reject" if v is None else "accept %d" % v
+
+
+def run_c15_nested(rng, with_expected=False):
     """A grammar whose action parses a sub-string with the SAME global parser (PushContex / ParserInit /
     Parser / PopContex, the context stack of the package-global template).  A history of such parses,
     some failing inside the nested parse, each preceded by ParserInit(); every result must equal the
@@ -885,4 +927,9 @@ def run_c15_nested(rng):
             ties.append({"what": "no solo reference run (nested)", "input": w})
         elif g != solo[w]:
             viol.append({"input": w, "position_in_history": i, "history": hist[:i + 1], "got": g, "alone": solo[w], "grammar_file": NESTED_Y})
+    if with_expected:
+        # C07: the value of each input parsed alone against the independent evaluation
+        wrong = [{"input": w, "got": solo[w], "expected": nested_expected(w), "grammar_file": NESTED_Y}
+                 for w in sorted(solo) if solo[w] is not None and solo[w] != nested_expected(w)]
+        return ties, wrong, len(solo)
     return ties, viol, len(hist)
